@@ -74,6 +74,11 @@ def cases_for(ctx):
     # the comparison is built in one process and consumed in a process forked from it (one forked consumer per category)
     cases.append({'behaviours': [E, D, E, E, E], 'recycle': 2, 'consume': 'full', 'consume_in_fork': True})
     cases.append({'behaviours': [E, D, E, E], 'recycle': 3, 'consume': ['close', 2], 'consume_in_fork': True})
+    # a replay that ends the worker process with exit status 0; a worker that is lost while it holds the lock of the terminate event;
+    # a second run of the same equalizer started while its first run is suspended
+    cases.append({'behaviours': [E, 'exit0', E, D], 'recycle': 3, 'consume': 'full'})
+    cases.append({'behaviours': [E, 'die_holding_event_lock', E, E, D], 'recycle': 5, 'consume': 'full'})
+    cases.append({'behaviours': [E, E, D, E, E], 'recycle': 2, 'consume': 'full', 'second_run_while_first_suspended': True})
     # a timeout of zero: every replay that does not answer at once is given up at once (not "no timeout")
     cases.append({'behaviours': ['hang', 'hang'], 'recycle': 3, 'timeout': 0, 'consume': 'full'})
     # the ids come from a generator of the caller whose clean-up fails / that swallows GeneratorExit; the run is abandoned
@@ -114,6 +119,8 @@ def cases_for(ctx):
 
 def judge(ctx, case, res, w):
     beh = case['behaviours']
+    if case.get('second_run_while_first_suspended'):
+        beh = beh[1:]             # (the first recording went to the suspended first run; the judged second run gets the rest)
     n_expected = len(beh) if case['consume'] == 'full' else min(len(beh), case['consume'][1])
     problems = []
     if case['consume'] != 'full' and case['consume'][0] == 'sigint':
@@ -142,14 +149,15 @@ def judge(ctx, case, res, w):
             problems.append(('comparison %d (%s) took %.1f s, timeout is %.1f s' % (i, beh[i], dt, timeout), {'timing': True}))
     # failures are reported as failures (termination with the right verdict for hang/exit)
     for i, r in enumerate(res['results']):
-        if beh[i] in ('hang', 'exit', 'hang_sigterm_ignored') and r['status'] != 'EqualizerFailure':
+        if beh[i] in ('hang', 'exit', 'exit0', 'hang_sigterm_ignored') and r['status'] != 'EqualizerFailure':
             problems.append(('a %s worker was not reported as a failure (%s)' % (beh[i], r['status']), {}))
     # "the run continues with a fresh worker": healthy replays after a fault get their own verdict
     # (a worker that could not be STARTED is a resource fault outside the property's fault model: which replays fail because of it is not
     #  judged - only that the run goes on, stays within the time bound and leaves nothing behind)
     # (with a timeout of zero a healthy replay that does not answer at once is legitimately given up too: its verdict is not judged)
-    for i, r in enumerate(res['results'] if not case.get('fork_fails_at') and timeout > 0 else []):
-        if beh[i] in ('equal', 'different', 'start_async_cassette') and not (i > 0 and beh[i - 1] == H.IDLE_DEATH):
+    # (a worker lost while it holds the terminate event's lock: which of the following replays notices the loss depends on pipe timing - not judged)
+    for i, r in enumerate(res['results'] if not case.get('fork_fails_at') and timeout > 0 and 'die_holding_event_lock' not in beh else []):
+        if beh[i] in ('equal', 'different', 'start_async_cassette') and not (i > 0 and beh[i - 1] in (H.IDLE_DEATH, 'die_holding_event_lock')):
             if r['status'] != H.EXPECTED[beh[i]]:
                 problems.append(('healthy replay %d (%s) was reported as %s: the run did not continue with a working worker' % (i, beh[i], r['status']), {}))
     # recycle rate: no worker serves more replays than the configured rate
